@@ -305,6 +305,24 @@ class Effects:
         if r is not None:
             return r
         f = c.func
+        # A1: test-patch indirections resolve to their default target:  _get_stage_callable("name", default)(...)
+        if isinstance(f, ast.Call) and call_tail(f) in ("_get_stage_callable", "_get_orch_callable") and len(f.args) >= 2:
+            d = dotted(f.args[1])
+            if d:
+                rr = self.ctx.prog.resolve_dotted(fn.module, d, fn)
+                if rr is not None:
+                    return rr
+        if isinstance(f, ast.Name):
+            # a local bound to such an indirection:  fn2 = _get_orch_callable("x", default)
+            rd = self.ctx.rd(fn)
+            for dd in rd.reaching(f.id, at):
+                v = dd.value
+                if dd.kind == "assign" and isinstance(v, ast.Call) and call_tail(v) in ("_get_stage_callable", "_get_orch_callable") and len(v.args) >= 2:
+                    d = dotted(v.args[1])
+                    if d:
+                        rr = self.ctx.prog.resolve_dotted(fn.module, d, fn)
+                        if rr is not None:
+                            return rr
         if isinstance(f, ast.Attribute) and isinstance(f.value, ast.Name):
             recv = f.value.id
             cls = self.hints.get(recv)
